@@ -182,6 +182,28 @@ OPS = {
     "C17": [
         op("root-depends-on-attributable", "fire", [(M, "        if mark_root:\n            self._roots.append(atom.index)", "        if mark_root and not (self._attributable and len(self) > 50):\n            self._roots.append(atom.index)")], ["NI"]),
         op("return-under-flag", "fire", [(E, '    result = ".".join(fragments), attribution_maps\n    return result if attribute else result[0]', '    if attribute:\n        return ".".join(f for f in fragments if f), attribution_maps\n    return ".".join(fragments)')], ["NI"]),
+        op("count-requested-not-read", "fire", [(D, "                n_derived += n_read\n", "                n_derived += n\n")], ["TI2"]),
+        op("reader-hides-count", "fire", [(D, "            n_read += 1\n", "            n_read += 0\n            n_read = n_symbols\n")], ["TI1", "TI2"]),
+        op("offset-off-by-one-per-fragment", "fire", [(D, "        attribution_index += n\n", "        attribution_index += n + 1\n")], ["TI3"]),
+        op("enumerate-from-one", "fire", [(D, "enumerate(_tokenize_selfies(s, compatible))", "enumerate(_tokenize_selfies(s, compatible), 1)")], ["TI3"]),
+        op("finite-top-budget", "fire", [(D, 'max_derive=float("inf"),', "max_derive=10 ** 6,")], ["TI3"]),
+        op("branch-symbol-position-without-offset", "fire", [(D, "[Attribution(index + attribution_index, symbol)\n                     ] if", "[Attribution(index, symbol)\n                     ] if")], ["TI4"]),
+        op("recursion-offset-shifted", "fire", [(D, "                    attribution_index=attribution_index\n", "                    attribution_index=attribution_index + 1\n")], ["TI4"]),
+        op("bond-not-attributed", "fire", [(D, "                o = mol.add_bond(src=src, dst=dst,\n                                 order=bond_order, stereo=stereo)\n                mol.add_attribution(\n                    o, attribute_stack +\n                    [Attribution(index + attribution_index, symbol)]\n                    if attribute_stack is not None else None)\n",
+                                             "                o = mol.add_bond(src=src, dst=dst,\n                                 order=bond_order, stereo=stereo)\n")], ["TC1"]),
+        op("branch-stack-not-extended", "fire", [(D, "                    attribute_stack=attribute_stack +\n                    [Attribution(index + attribution_index, symbol)\n                     ] if attribute_stack is not None else None,", "                    attribute_stack=attribute_stack,")], ["TC1"]),
+        op("writer-index-not-end-of-token", "fire", [(S, "                    _strlen(derived) - 1 + attribution_index,\n                    token, bond_attribution))\n                ends =", "                    _strlen(derived) + attribution_index,\n                    token, bond_attribution))\n                ends =")], ["TO1"]),
+        op("writer-index-before-append", "fire", [(S, "            derived.append(token)\n            attribution_maps.append(AttributionMap(\n                _strlen(derived) - 1 + attribution_index,\n                token, mol.get_attribution(curr_atom)))",
+                                                    "            attribution_maps.append(AttributionMap(\n                _strlen(derived) - 1 + attribution_index,\n                token, mol.get_attribution(curr_atom)))\n            derived.append(token)")], ["TO1"]),
+        op("writer-attribution-of-other-object", "fire", [(S, "                token, mol.get_attribution(curr_atom)))\n\n        out_bonds = mol.get_out_dirbonds(curr)", "                token, mol.get_attribution(mol.get_atom(root))))\n\n        out_bonds = mol.get_out_dirbonds(curr)")], ["TO1"]),
+        op("separator-not-counted", "fire", [(S, '        attribution_index += _strlen(derived) + 1  # fragments are "."-joined', "        attribution_index += _strlen(derived)")], ["TO2"]),
+        op("encoder-atom-attributed-to-bond", "fire", [(E, "            token, mol.get_attribution(curr_atom)))", "            token, mol.get_attribution(bond_into_curr)))")], ["TE1"]),
+        op("parser-attributes-previous-token", "fire", [(S, "    o = mol.add_atom(atom, mark_root=is_root)\n    mol.add_attribution(o, [Attribution(i, str(tok))])", "    o = mol.add_atom(atom, mark_root=is_root)\n    mol.add_attribution(o, [Attribution(i, str(prev_atom))])")], ["TE2"]),
+        op("kekulize-clears-attribution", "fire", [(M, "    def kekulize(self) -> bool:\n", "    def kekulize(self) -> bool:\n        self._attribution.clear()\n")], ["TE3"]),
+        op("writer-running-counter", "silent", [(S, "    stack = [(root, 0, len(mol.get_out_dirbonds(root)), False)]\n\n    while stack:", "    stack = [(root, 0, len(mol.get_out_dirbonds(root)), False)]\n    written = 0\n\n    while stack:"),
+                                                 (S, "            derived.append(token)\n            attribution_maps.append(AttributionMap(\n                _strlen(derived) - 1 + attribution_index,\n                token, mol.get_attribution(curr_atom)))",
+                                                     "            derived.append(token)\n            written = _strlen(derived)\n            attribution_maps.append(AttributionMap(\n                written - 1 + attribution_index,\n                token, mol.get_attribution(curr_atom)))")]),
+        op("offset-accumulated-in-two-steps", "silent", [(D, "        attribution_index += n\n", "        consumed = n\n        attribution_index = attribution_index + consumed\n")]),
     ],
     "C18": [
         op("wrong-table-entry", "fire", [(C, '("[Branch{}_2]", "[=Branch{}]")', '("[Branch{}_2]", "[#Branch{}]")')], ["M1"]),
